@@ -36,7 +36,7 @@ theorem startup_append (path : Path) (am : Bool) (m : Nat) (roll : RollFn) (s : 
     (s.tst = true → (append (startupCfg path am m roll) s r fault).1.rolled = none) ∧
     (s.tst = false → ((append (startupCfg path am m roll) s r fault).1.rolled.isSome ↔
         (openView (startupCfg path am m roll) s).length ≥ m)) := by
-  obtain ⟨_, ht, _, hno, _, hyes⟩ := append_pre_spec (startupCfg path am m roll) s r fault hwf rfl _ _
+  obtain ⟨_, ht, _, _, hno, _, hyes⟩ := append_pre_spec (startupCfg path am m roll) s r fault hwf rfl _ _
     (append (startupCfg path am m roll) s r fault).1 (append (startupCfg path am m roll) s r fault).2 rfl rfl rfl
   have key : ∀ L, ((startupCfg path am m roll).trig.fire s.tst L s.now) =
       if s.tst then (.no, true) else (if L ≥ m then .yes else .no, true) := by
@@ -174,7 +174,7 @@ theorem C17_iff_big_enough (path : Path) (am : Bool) (m : Nat) (roll : RollFn) (
   have hwf := WF_init cfg d false now
   have ht0 : (init cfg d false now).tst = false := (getWriter_spec cfg _ (Or.inl rfl)).2.2.2.1
   have ho : Opened cfg (init cfg d false now) (if am then fileOf cfg d else []) := by
-    have h := (getWriter_spec cfg { disk := d, writer := none, tst := cfg.trig.reinit false now, now := now } (Or.inl rfl)).1
+    have h := (getWriter_spec cfg { disk := d, writer := none, tst := cfg.trig.reinit false now, now := now, opened := false } (Or.inl rfl)).1
     simpa [openView, init, build, cfg, startupCfg] using h
   have hov : openView cfg (init cfg d false now) = if am then fileOf cfg d else [] := by
     obtain ⟨w, hw, _, hg, _⟩ := ho
@@ -205,7 +205,7 @@ theorem C17_content_placement (path : Path) (am : Bool) (m : Nat) (roll : RollFn
     s'.disk.get? path = some (encBytes r) ∧
     ∃ j, arch s'.disk = (arch s.disk ++ [openView (startupCfg path am m roll) s]).drop j := by
   intro s'
-  obtain ⟨_, _, _, _, _, hyes⟩ := append_pre_spec (startupCfg path am m roll) s r fault hwf rfl _ _
+  obtain ⟨_, _, _, _, _, _, hyes⟩ := append_pre_spec (startupCfg path am m roll) s r fault hwf rfl _ _
     (append (startupCfg path am m roll) s r fault).1 (append (startupCfg path am m roll) s r fault).2 rfl rfl rfl
   have key : ((startupCfg path am m roll).trig.fire s.tst (openView (startupCfg path am m roll) s).length s.now).1 = .yes := by
     simp [startupCfg, onStartupTrigger, hfresh]
@@ -217,14 +217,9 @@ theorem C17_content_placement (path : Path) (am : Bool) (m : Nat) (roll : RollFn
       have : (roll path fault d1).1 = .ok x := hx
       rw [← this]
     obtain ⟨hgone, j, harch⟩ := hc.ok fault d1 x _ _ hroll hg1
-    have hfile : (if (startupCfg path am m roll).appendMode then
-        fileOf (startupCfg path am m roll) ((startupCfg path am m roll).roll (startupCfg path am m roll).path fault d1).2
-        else []) = [] := by
-      have : fileOf (startupCfg path am m roll) (roll path fault d1).2 = [] := by
-        simp [fileOf, startupCfg, hgone]
-      split
-      · exact this
-      · rfl
+    have hfile : fileOf (startupCfg path am m roll)
+        ((startupCfg path am m roll).roll (startupCfg path am m roll).path fault d1).2 = [] := by
+      simp [fileOf, startupCfg, hgone]
     rw [hfile] at ho
     obtain ⟨w, _, _, hg, _⟩ := ho
     refine ⟨hg, j, ?_⟩
